@@ -13,6 +13,8 @@
 //   X:<class>  an exception left a host call (ExecuteThread / Execute); A: = abort kinds, S: = script
 //              warning kinds, F: = anything else
 //   F<n>       host frame n starts (clock advanced, ScriptContext::Execute)
+//   S          the sentinel script is compiled and started; L<n> = frame n after that (until the sentinel,
+//              which sleeps once, has printed its second line; at most 6)
 // ends  = operand-stack index of every VM whose thread ended (H4, offset -1)
 // trans = distinct (opcode, operand count, height delta, operand bytes consumed) between consecutive
 //         probes of the same VM, outside parameter binding
@@ -220,6 +222,8 @@ const char* SENTINEL =
     "local.a[1] = \"sen\"\n"
     "local.a[2] = \"tinel\"\n"
     "println (local.a[1] + local.a[2] + \"-ok \" + local.s)\n"
+    "wait 0.05\n"
+    "println \"sentinel-late\"\n"
     "end\n";
 
 template<typename F> bool hostCall(F&& f)
@@ -297,7 +301,18 @@ int main()
                 if (s && s->IsCompileSuccess()) { Event ev; g_ctx->GetDirector().ExecuteThread(s, ev, "main"); }
             });
             flushStreams();
-            for (size_t i = mark; i < g_log.size(); ++i) if (g_log[i] == "O:sentinel-ok_42") sentinel = true;
+            bool ran = false, late = false;
+            for (size_t i = mark; i < g_log.size(); ++i) if (g_log[i] == "O:sentinel-ok_42") ran = true;
+            // ... and still schedule: the sentinel sleeps once and must be resumed by a later frame (threads of the
+            // program that are still due may abort a frame each, hence a few frames)
+            for (int f = 1; f <= 6 && !late; ++f) {
+                g_clock += 60;
+                g_log.push_back("L" + std::to_string(f));
+                hostCall([&] { g_ctx->Execute(); });
+                flushStreams();
+                for (size_t i = mark; i < g_log.size(); ++i) if (g_log[i] == "O:sentinel-late") late = true;
+            }
+            sentinel = ran && late;
         }
         const bool idle = g_ctx->IsIdle();
         std::ostringstream o;
